@@ -159,6 +159,11 @@ def value_of(e, env):
         return -e.operand.value
     if isinstance(e, ast.Name):
         return env.get(e.id, _NOVAL)
+    if isinstance(e, ast.IfExp):
+        t = eval_bool(e.test, env)
+        if t is None:
+            return _NOVAL
+        return value_of(e.body if t else e.orelse, env)
     if isinstance(e, (ast.List, ast.Tuple, ast.Set)):
         vals = [value_of(x, env) for x in e.elts]
         # a table row may carry functions next to its literal columns: kept as syntax
